@@ -15,6 +15,7 @@ import (
 	"github.com/z7zmey/php-parser/pkg/position"
 	"github.com/z7zmey/php-parser/pkg/token"
 	"github.com/z7zmey/php-parser/pkg/version"
+	"github.com/z7zmey/php-parser/pkg/visitor/formatter"
 	"github.com/z7zmey/php-parser/pkg/visitor/printer"
 	"github.com/z7zmey/php-parser/pkg/visitor/traverser"
 )
@@ -207,6 +208,14 @@ func opAnalyze(t Task) Result {
 	}
 	root := p.root
 	clean := cb && len(p.errs) == 0
+	if tBool(t, "format") {
+		// the tree as the formatter leaves it (C12 speaks of any tree): only the traversal facts are of interest to the caller
+		if !clean || isNilVertex(root) {
+			return Result{"skip": true}
+		}
+		root.Accept(formatter.NewFormatter())
+		clean = false
+	}
 
 	// ---- collect tokens / nodes in source order
 	var toks []tokRec
